@@ -1,7 +1,7 @@
-"""dev helper: python -m pyvc.quick contracts/c08.py [function-substring] [--dump obligation-substring]"""
+"""dev helper: python -m pvc.quick contracts/c08.py [function-substring] [--dump obligation-substring]"""
 import sys, importlib.util, time
-from pyvc.engine import Engine
-from pyvc import solve
+from pvc.engine import Engine
+from pvc import solve
 def load(path):
     spec = importlib.util.spec_from_file_location("cmod", path); m = importlib.util.module_from_spec(spec); spec.loader.exec_module(m); return m
 if __name__ == "__main__":
